@@ -237,6 +237,10 @@ def handle : List String → String
     | _, _ => "error\tbad-request"
   | ["ops"] =>
     ",".intercalate (allOps.map fun o => o.name ++ "=" ++ o.goFn ++ "=" ++ toString o.calls.length)
+  | ["shellops"] =>
+    -- the metacharacter operations, each with the ordinary-argument operation it must behave like
+    ",".intercalate (shellOps.map fun o => o.name ++ "=" ++ o.plain.name ++ "=" ++
+      toString (o.calls == o.plain.calls))
   | _ => "error\tunknown-request"
 
 end Risor.C12
